@@ -15,6 +15,8 @@ func init() {
 				Quick: map[string]int{"k": 2, "three": 1}, Thorough: map[string]int{"k": 3, "three": 1},
 				Reach: []string{"pipeline completed"}, Functions: pipelineFns,
 				Known: []string{"C01-node-without-fragment", "C01-response-key-id-taken"}},
+			{Name: "point-syntax", Pkg: "executor", Files: []string{"executor/c12.go"}, Entry: "VerifPointData", Mode: "seq",
+				Reach: []string{"point parsed"}, Functions: []string{"executor.(*CachedPointDataExtractor).Extract"}},
 			{Name: "pipeline-abstract", Pkg: ".", Files: []string{"root/fed.go", "root/c01.go"}, Entry: "VerifPipelineAbstract", Mode: "seq", Native: true,
 				Quick: map[string]int{"k": 2}, Thorough: map[string]int{"k": 3},
 				Reach: []string{"pipeline completed"}, Functions: pipelineFns,
